@@ -1,4 +1,4 @@
-import IncrVerif.Proofs.Step
+import IncrVerif.Proofs.StepStamp
 /-!
 # C02 — glitch-freedom, local part (LOCAL STEP theorems about `recomputeOne`)
 
@@ -8,7 +8,11 @@ PROVED HERE (for every state, one call of `recomputeOne env fuel n`):
   user function, the cutoff, the notifications — runs from that state.  `step_invalid_node`,
   `step_missing_node`: this happens even when the call then panics at once.
 * `step_stamp_kept`: if the call returns, `recomputedAt n = s.stabNum` still holds, the `recomputed`
-  counter went up by exactly one, the round number did not move.
+  counter went up by exactly one, the round number did not move (kinds of `Step.Computes`).
+* `step_stamp_all_kinds`: the same for EVERY kind of node (BindLhsChange, MapRef, Expert, per-key and
+  incremental-map operator closures included), arbitrary side effects of user closures, with or
+  without an injected fault, and EVERY outcome of the call (return or panic): nothing the engine does
+  within a step lowers a stamp of the current round (`Proofs/StepStamp.lean`).
 * `step_map_invokes_once`: a `map` node's function is invoked exactly once, on the values its inputs
   have at the moment of the call (one `inv` event carrying these values and the result; everything
   logged after it is cutoff/edge-callback noise, which `inv_is_not_noise` shows is never such an
@@ -19,10 +23,12 @@ PROVED HERE (for every state, one call of `recomputeOne env fuel n`):
 NOT PROVED HERE: the global property "within one stabilise every node function runs at most once, on
 up-to-date arguments" — it needs the scheduling invariant of `drainHeap`/`recompute` (heights
 increase along edges; a node is recomputed only when nothing lower is pending), developed
-separately.  `step_stamp_kept`, `step_not_stale` are stated for the kinds of `Step.Computes` (map
-without effects, built-in maps, var, const, fold, map_with_old, bind_main with a valid rhs that has a
-value); BindLhsChange, MapRef, Expert nodes and the self-invalidating branch of BindMain are out of
-scope here.
+separately.  `step_stamp_kept`, `step_map_invokes_once`, `step_not_stale` are stated for the kinds of
+`Step.Computes` (map with a user function without effects, built-in maps, var, const, fold,
+map_with_old with a user-written machine, bind_main with a valid rhs that has a value);
+BindLhsChange, MapRef, Expert nodes, the per-key / incremental-map operator closures and the
+self-invalidating branch of BindMain are out of scope for those (but not for
+`step_stamp_all_kinds`).
 
 ASSUMPTIONS.  `s.panicCountdown = none` (no injected fault armed; `tick` is a no-op).  `0 ≤ s.stabNum`
 in `step_not_stale`: `-1` is the "never" timestamp; the round number starts at 0 and only grows.
@@ -102,25 +108,25 @@ example : exS.nodes[2]? = some (exS.nodeD 2) ∧ (exS.nodeD 2).valid = true ∧
     (exS.nodeD 2).kind = .fold 0 (.int 10) [0, 0] ∧
     [0, 0].map (exS.value exEnv) = [Val.int 1, Val.int 1].map some := ⟨rfl, rfl, rfl, rfl⟩
 
-/-- `map_with_old g i`: stamp, run the machine once on (closure state, old value, input value), log it,
+/-- `map_with_old g i`, user-written machine (`g < opBase`): stamp, run the machine once on (closure state, old value, input value), log it,
 store value and closure state (`setWithOld`), then `maybe_change_value_manual` with the machine's own
 "did change" answer. -/
 theorem step_begin_mapWithOld (env : Env) (fuel n : Nat) (s : State) (nd : Node) (g i : Nat)
     (x σ' new : Val) (did : Bool)
     (hn : s.nodes[n]? = some nd) (hv : nd.valid = true) (hk : nd.kind = .mapWithOld g i)
-    (hx : s.value env i = some x) (hp : s.panicCountdown = none)
+    (hg : g < opBase) (hx : s.value env i = some x) (hp : s.panicCountdown = none)
     (hw : env.withOld g nd.oldState nd.value x = (σ', new, did)) :
     (recomputeOne env fuel n).run.run s =
       (maybeChangeValueManual env fuel n none did true).run.run
         (setWithOld n new σ'
           (logged [.inv s!"g{g}" n ((match nd.value with | some o => [o] | none => []) ++ [x])
             s!"{new.render},{did}"] (started n s))) :=
-  recomputeOne_mapWithOld_run env fuel n s nd g i x σ' new did hn hv hk hx hp hw
+  recomputeOne_mapWithOld_run env fuel n s nd g i x σ' new did hn hv hk hg hx hp hw
 
-example : exS.nodes[4]? = some (exS.nodeD 4) ∧ (exS.nodeD 4).kind = .mapWithOld 0 0 ∧
+example : exS.nodes[4]? = some (exS.nodeD 4) ∧ (exS.nodeD 4).kind = .mapWithOld 0 0 ∧ 0 < opBase ∧
     exS.value exEnv 0 = some (.int 1) ∧
     exEnv.withOld 0 (exS.nodeD 4).oldState (exS.nodeD 4).value (.int 1) = (.int 1, .int 2, true) :=
-  ⟨rfl, rfl, rfl, rfl⟩
+  ⟨rfl, rfl, by decide, rfl, rfl⟩
 
 /-- `bind_main b lc` with a valid rhs `r0` that has value `v`: stamp, then `maybe_change_value` with
 `v`. -/
@@ -178,6 +184,23 @@ example : Computes exEnv exS 1 (exS.nodeD 1) (exEnv.fn 0 [.int 1]) (exS.nodeD 1)
   Computes.map 0 [0] [.int 1] rfl (by decide) rfl rfl
 example : ∃ r s', (recomputeOne exEnv 5 1).run.run exS = (.ok r, s') :=
   (returned_iff _).1 (by decide +kernel)
+
+/-- The stamp, for EVERY kind of node and EVERY outcome.  Whatever node `n` is (any kind, valid or
+not), whatever the user closures run by the step do (bind bodies creating nodes, expert-node
+callbacks adding and removing dependencies, var writes, invalidation cascades), whether or not an
+injected fault is armed, and whether the call returns or panics (`r` is any result): in the final
+state `recomputedAt n` is the current round, the round number is unchanged, the `recomputed` counter
+went up by exactly one, and no node was removed.  (Invalidation also stamps `recomputedAt` with the
+current round, so no validity proviso is needed.) -/
+theorem step_stamp_all_kinds (env : Env) (fuel n : Nat) (s s' : State) (nd : Node)
+    (r : Except Panic (Option Nat)) (hn : s.nodes[n]? = some nd)
+    (h : (recomputeOne env fuel n).run.run s = (r, s')) :
+    (s'.nodeD n).recomputedAt = s.stabNum ∧ s'.stabNum = s.stabNum ∧
+      s'.counters.recomputed = s.counters.recomputed + 1 ∧ s.nodes.size ≤ s'.nodes.size :=
+  recomputeOne_stamp env fuel n s s' nd r hn h
+
+example : exS.nodes[3]? = some (exS.nodeD 3) ∧ (exS.nodeD 3).kind = .mapRef 0 0 ∧
+    ∃ r s', (recomputeOne exEnv 5 3).run.run exS = (r, s') := ⟨rfl, rfl, _, _, rfl⟩
 
 /-! ## 2. the function is invoked once, on the values of that moment -/
 
